@@ -236,8 +236,13 @@ class ArithFunctions(InterpreterFunctions):
         (lhs, rhs) = args
         assert rhs >= 0
         assert isa(op.result.type, builtin.IndexType | builtin.IntegerType)
+        bitwidth = _int_bitwidth(interpreter, op.result.type)
+        if rhs >= bitwidth:
+            # All bits are shifted out (the result is poison in MLIR); do not build the
+            # huge intermediate `lhs << rhs`, e.g. for a shift amount of 2**40.
+            return (0,)
         # bits shifted out of the type are dropped
-        return (to_signed(lhs << rhs, _int_bitwidth(interpreter, op.result.type)),)
+        return (to_signed(lhs << rhs, bitwidth),)
 
     @impl(arith.ShRSIOp)
     def run_shrsi(
